@@ -147,10 +147,13 @@ def oracle_c02(step):
 def oracle_c09(step):
     all_readable = all(e['readable'] and e['records'] is not None for e in step['earlier'])
     seen = set()
+    seen_readable = set()       # stored by an earlier backup whose manifest the run can read: must be referred to, whatever else is damaged
     for e in step['earlier']:
         for r in (e['records'] or []):
             if r['unique']:
                 seen.add(r['hash'])
+                if e['readable'] and e['records'] is not None:
+                    seen_readable.add(r['hash'])
     prev = step['earlier'][-1] if step['earlier'] else None
     prev_map = {}
     if prev and prev['readable'] and prev['records'] is not None:
@@ -160,9 +163,10 @@ def oracle_c09(step):
         if r['unique']:
             if r['size'] == 0:
                 return 'empty file %s stored as unique' % r['path']
-            if all_readable and r['hash'] in seen:
+            if (all_readable and r['hash'] in seen) or r['hash'] in seen_readable:
                 return 'content of %s stored again although the group already stores it' % r['path']
             seen.add(r['hash'])
+            seen_readable.add(r['hash'])
         s = step['source'].get(r['path'])
         p = prev_map.get(r['path'])
         if s and p and (p['dev'], p['ino'], p['mtime_ns']) == (s[0], s[1], s[2]):
